@@ -59,18 +59,22 @@ pub fn run(args: &Args, rep: &mut Report) {
         }
     }
     // (a') structured families: nested parallels completing in every order, histories at every level
-    for d in 0..args.scale(15, 240) {
+    for d in 0..args.scale(24, 360) {
         if crate::report::should_stop() {
             break;
         }
         let dm = dms[d % dms.len()];
-        let (doc, paths) = match d % 3 {
+        let (doc, paths) = match d % 4 {
             0 => crate::corpus::done_tree(&mut rng, dm, d),
             1 => crate::corpus::history_tree(&mut rng, dm, d),
-            _ => crate::corpus::guarded_eventless(&mut rng, d),
+            2 => crate::corpus::guarded_eventless(&mut rng, d),
+            _ => {
+                w.rep.count("conflict_tree_documents", 1);
+                crate::corpus::conflict_tree(&mut rng, dm, d)
+            }
         };
         if let Ok(f) = Flat::from_doc(&doc) {
-            for (i, p) in paths.iter().take(3).enumerate() {
+            for (i, p) in paths.iter().take(if d % 4 == 3 { 6 } else { 3 }).enumerate() {
                 if w.run_one(&doc, &f, p, i == 0) {
                     w.rep.nontrivial_key(&distinct_key(&doc, p));
                 }
